@@ -138,6 +138,14 @@ def run(rep, work, tier, seed, props, replay=None):
     alias_bad = [(t, r) for t, r in zip(alias_tasks, alias_res) if r != "ok"]
     for t, r in alias_bad[:4]:
         rep.violation({"kind": "a constant tensor aliasing a non-constant tensor's array changes that tensor's gradient: %s(%s) -- %s" % (t["fn"], t["alias"], r), "alias_task": t})
+    cv_tasks = [{"what": "const_view", "fn": f1, "fn2": f2, "c_in_graph": cg, "v_in_graph": vg, "read_before": rb, "order": o}
+                for f1 in ("reshape", "transpose", "swapaxes", "expand_dims", "ravel") for f2 in ("reshape", "transpose", "expand_dims", "ravel")
+                for cg in (True, False) for vg in (True, False) for rb in (True, False) for o in (0, 1)]
+    cv_res = []
+    for r in run_impl_parallel("c10_impl.py", [{"tasks": cv_tasks}]):
+        cv_res.extend(r["results"])
+    for t, r in [(t, r) for t, r in zip(cv_tasks, cv_res) if r != "ok"][:4]:
+        rep.violation({"kind": "a view made constant explicitly: %s" % r, "const_view_task": t})
     terms = [coq_ccase(m, g) for m, g in zip(models, res)]
     hdr = "From Coq Require Import List. Import ListNotations.\nFrom MG Require Import Model.ConstRule Model.ConstCorr.\n"
     lat_bad = []
